@@ -370,6 +370,19 @@ def canon_text(den) -> str:
     return f"{unit}:{iso}:{size}"
 
 
+def den_start(den):
+    """First day of a dated period, else None."""
+    unit, iso, _ = den
+    try:
+        if unit in ("week", "weekday") or "W" in iso:
+            f = iso.split("-")
+            return dt.date.fromisocalendar(int(f[0]), int(f[1][1:]), int(f[2]) if len(f) > 2 else 1)
+        f = [int(x) for x in iso.split("-")]
+        return dt.date(f[0], f[1] if len(f) > 1 else 1, f[2] if len(f) > 2 else 1)
+    except (ValueError, IndexError):
+        return None
+
+
 def months_of(den):
     """The months ('YYYY-MM') a month- or year-based period covers, else None."""
     unit, iso, size = den
@@ -572,8 +585,21 @@ def _place(ref, spec, vmap, decl, counts):
             ref.cells[(name, "ETERNITY")] = vec
             continue
         if any(d[0] == "eternity" for d in by_den):
+            if v.get("end"):
+                ref.skip = ref.skip or "ETERNITY for a variable with an end"
+                continue
             ref.refuse.append("period-mismatch")
             continue
+        if v.get("end"):
+            # the end date is inclusive: a period starting on or before it is placed like any other;
+            # what starts after it is ignored by the code and not judged here
+            end = dt.date.fromisoformat(v["end"])
+            starts = {d: den_start(d) for d in by_den}
+            if any(x is None for x in starts.values()):
+                ref.skip = ref.skip or "start of a period of a variable with an end"
+                continue
+            by_den = {d: m for d, m in by_den.items() if starts[d] <= end}
+            ref.features.add(("end", name))
         specific = {d: m for d, m in by_den.items() if d[0] == v["unit"] and d[2] == 1}
         longer = {d: m for d, m in by_den.items() if d not in specific}
         if longer and v["rule"] == "absent":
@@ -783,6 +809,9 @@ def reference(spec, dp_raw, doc) -> Ref:
                         (v["unit"] != "eternity" and (den[0] != v["unit"] or den[2] != 1)) or a.get("count", cnt) != cnt:
                     ref.skip = ref.skip or "axis outside what the oracle reads"
                     continue
+                if v.get("end"):
+                    ref.skip = ref.skip or "axis on a variable with an end"
+                    continue
                 if v["entity"] in ref.declared and idx >= ref.declared[v["entity"]]:
                     ref.skip = ref.skip or "axis index designates an own-group (set order)"
                     continue
@@ -935,7 +964,10 @@ def oracle(case: Case, impl_out: str):
                 return (SIG_H, "short form: a key that is no entity was silently dropped instead of being refused")
             return ("malformed-accepted:" + hard[0], f"ill-formed description ({', '.join(sorted(set(hard)))}) produced a simulation")
         if ref.shape == "vars" or all(c.endswith("-in-axis") for c in hard):
-            return (SIG_ERRCLASS, f"{', '.join(sorted(set(hard)))}: refused with {impl_out}, not with a situation error")
+            site = "variables-only" if ref.shape == "vars" else "axes"
+            cls = impl_out.split(" ")[1] if " " in impl_out else "?"
+            return (f"{SIG_ERRCLASS}:{site}:{'+'.join(sorted(set(hard)))}:{cls}",
+                    f"{', '.join(sorted(set(hard)))}: refused with {impl_out}, not with a situation error")
         if set(hard) == {"list-value"}:
             return (SIG_C, f"a list given as a scalar value is refused with {impl_out}, not with a situation error")
         trig = _trigger(f)
@@ -1113,8 +1145,8 @@ def gen_spec(rng: random.Random):
 
 CANON = {
     "month": ["2018-01", "2018-02", "2017-12", "2019-03"],
-    "year": ["2018", "2017"],
-    "day": ["2018-01-15", "2020-02-29"],
+    "year": ["2018", "2017", "2019"],
+    "day": ["2018-01-15", "2020-02-29", "2017-06-30", "2018-01-16"],
     "week": ["2018-W03", "2020-W53"],
     "weekday": ["2018-W03-2", "2021-W01-7"],
     "eternity": ["ETERNITY"],
